@@ -34,6 +34,15 @@ def streams(tier, rng, P, only=None, cases=None):
             elif k < 0.74: srcs.append("%s[%d PRINT(%s)] %s c d e f g" % (rng.choice(["", "RandomSeed(%d) " % rng.randint(1, 99)]), rng.choice([98, 100, 101, 130, 250]), rng.choice(["Random(50)", "Random(3)+1", "RandomSelect(1,2,3)"]), rng.choice(["v.Random(%d)" % rng.randint(5, 40), "t.Random(7)", "q.Random(30)", "o.Random(2)"])))
             elif k < 0.85: srcs.append(rng.choice(["INT A=%d; FOR(INT I=0;I<3;I++){ PRINT(A+I) c }", "STR S={c d} S S PRINT({x%d})", "INT N=%d IF(N>5){ c }ELSE{ d } PRINT(N)"]) % rng.randint(0, 9))
             else: srcs.append(mml.pr(mml.gen_program(rng, depth=1, maxlen=5)) + rng.choice([" !", " ZZZ", " (", " }", " あ"]))
+        # user functions and variables named like commands of the language (the reserved-word table is a hash map): the outcome — accepted,
+        # warned or refused — must be the same in every compilation
+        from tools import gen_tables
+        try: cmd_names = [r["name"] for r in gen_tables.extract(P.srcdir)["sysFuncs"] if r["name"][:1].isupper() and r["name"].isalnum()]
+        except Exception: cmd_names = ["Chorus", "Reverb", "Expression", "Modulation", "Tempo", "Voice", "PanPot", "Sustain"]
+        for _ in range(60 if big else 14):
+            nm = rng.choice(cmd_names)
+            srcs.append(rng.choice(["Function %s(N){ Result = N + 12 } Int K = %s(48) n(K)", "FUNCTION %s(N){ RETURN(N+1) } PRINT(%s(2)) c",
+                                    "Int %s=3; PRINT(%s) c", "STR %s={c d}; %s e"]) % (nm, nm))
         srcs += [s for s in mml.sample_sources()]
         # variants: entry x debug x lang, each in nproc fresh processes
         variants = [(e, d, l) for e in ("lib", "midi", "obj") for d in (0, 1) for l in ("en", "ja")]
